@@ -453,7 +453,9 @@ func SubscriptBuiltin(vm *Thread, collection, key value.Value) (result, err valu
 	case value.ArrayTuple:
 		return c.Subscript(key)
 	case HashRecord:
-		return c.GetValUndefined(vm, key)
+		// `[]` returns nil for a missing key (see headers/hash_map.elh, headers/hash_record.elh),
+		// the internal `undefined` marker must not escape to user code
+		return c.GetValNil(vm, key)
 	default:
 		return value.Undefined, value.Undefined
 	}
